@@ -2,6 +2,8 @@
 from pvc.harness import Contract, REGISTRY
 
 MOD = "smoothing"
+NOT_CAT_DATE = ("BINNED_NUMERIC", "CAT", "CA_CAT", "CA_SUBVAR", "DATETIME", "LOGICAL", "MR_CAT", "MR_SUBVAR",
+                "NUM_ARRAY", "TEXT")
 
 
 class SmoothContract(Contract):
@@ -33,13 +35,16 @@ class SmoothContract(Contract):
         else:
             sd = {}
             weff = 2
-        sm = B.new(MOD + ":_SingleSidedMovingAvgSmoother", sd, DT.CAT_DATE if cfg["date"] else DT.CAT)
+        if not cfg["date"]:
+            # "when the dimension is not categorical-date": every other member of the enumeration
+            dtype = B.member("dimension_type", "enums:DIMENSION_TYPE", NOT_CAT_DATE)
+            sm = B.new(MOD + ":_SingleSidedMovingAvgSmoother", sd, dtype)
+            B.check("unsmoothed-returned-unchanged", sm.smooth(V) is V)
+            return
+        sm = B.new(MOD + ":_SingleSidedMovingAvgSmoother", sd, DT.CAT_DATE)
         out = sm.smooth(V)
         size0 = (n == 0) if cfg["nd"] == 1 else B.bor(n == 0, shape[0] == 0)
-        can = B.band(cfg["date"], B.bnot(size0), weff >= 2, weff <= n)
-        if not cfg["date"]:
-            B.check("unsmoothed-returned-unchanged", out is V)
-            return
+        can = B.band(B.bnot(size0), weff >= 2, weff <= n)
         if out is V:
             # identity path: must be one where smoothing is impossible
             B.check("identity-only-when-cannot-smooth", B.bnot(can))
